@@ -111,6 +111,24 @@ pub fn pick_roots(rng: &mut Rng, graph: &ModuleGraph) -> Vec<ModuleSpecifier> {
   }
 }
 
+/// (module, specifier text) pairs the generated sources import statically
+/// at least once (the closure model's merged `is_dynamic`, Appendix A7)
+fn static_edges_of(gw: &GWorld, kind: GraphKind) -> std::collections::BTreeSet<(String, String)> {
+  let mut out = std::collections::BTreeSet::new();
+  for m in &gw.modules {
+    if !matches!(m.serve, Serve::Module | Serve::ModuleOtherFinal(_)) {
+      continue;
+    }
+    let d = model_declarations(m, kind, gw.resolver.as_ref());
+    for (text, dep) in &d.deps {
+      if !dep.is_dynamic {
+        out.insert((url(&m.url).to_string(), text.clone()));
+      }
+    }
+  }
+  out
+}
+
 fn one_world(i: usize, seed: u64, acc: &mut Acc, which: &str, walks_per_graph: usize) {
   let mut rng = Rng::new(seed).fork(i as u64);
   let gcfg = GenCfg {
@@ -146,6 +164,9 @@ fn one_world(i: usize, seed: u64, acc: &mut Acc, which: &str, walks_per_graph: u
   if i < 2 {
     acc.sample(json!({"world": gw.to_json(), "build": cfg.to_json(),
       "specifiers": graph.specifiers().map(|(s, _)| s.to_string()).collect::<Vec<_>>()}));
+  }
+  if which == "C02" {
+    crate::eval::set_static_edges(static_edges_of(&gw, cfg.kind));
   }
   for _ in 0..walks_per_graph {
     let roots = pick_roots(&mut rng, &graph);
@@ -187,6 +208,10 @@ pub fn run_c15(tier: Tier, seed: u64) -> i32 {
 enum Edge {
   Static,
   Dynamic,
+  /// `await import("T")` followed by `export * from "T"` in one module: static
+  DynThenStatic,
+  /// `import "T"` followed by `await import("T")`: static
+  StaticThenDyn,
   TypeOnly,
   DenoTypes,
   SelfTypes,
@@ -260,6 +285,14 @@ fn placement_world(
         text: text.into(),
         deno_types: None,
       }],
+      Edge::DynThenStatic => vec![
+        Item { form: Form::DynImport, text: text.into(), deno_types: None },
+        Item { form: Form::ExportStar, text: text.into(), deno_types: None },
+      ],
+      Edge::StaticThenDyn => vec![
+        Item { form: Form::SideEffect, text: text.into(), deno_types: None },
+        Item { form: Form::DynImport, text: text.into(), deno_types: None },
+      ],
       Edge::TypeOnly => vec![Item {
         form: Form::ImportType,
         text: text.into(),
@@ -431,6 +464,152 @@ fn all_opts() -> Vec<EvalOpts> {
   v
 }
 
+/// Known-answer worlds for C02: a failure behind the entry module of a JSR
+/// package that is imported *statically*, next to unrelated dynamic imports.
+/// The expected verdict follows from the sources alone.
+fn registry_known_answers(acc: &mut Acc) {
+  use crate::world::World;
+  let fails = ["json-without-attribute", "missing", "parse-error"];
+  for root_scheme in ["file:///", "https://h.test/"] {
+    for dyn_pos in ["none", "before", "after", "two"] {
+      for dyn_target in ["local", "jsr"] {
+        for depth in [0usize, 1] {
+          for via_local in [false, true] {
+            for jsr_static in [true, false] {
+              for fail in fails {
+                let mut w = World::new();
+                // the package
+                let mut files: Vec<(String, String)> = vec![];
+                let fail_import = match fail {
+                  "json-without-attribute" => "import data from \"./data.json\";\nconsole.log(data);\n",
+                  "missing" => "import \"./gone.ts\";\n",
+                  _ => "import \"./broken.ts\";\n",
+                };
+                if depth == 0 {
+                  files.push(("/mod.ts".into(), format!("{}export const a = 1;\n", fail_import)));
+                } else {
+                  files.push(("/mod.ts".into(), "export * from \"./inner.ts\";\n".into()));
+                  files.push(("/inner.ts".into(), format!("{}export const a = 1;\n", fail_import)));
+                }
+                files.push(("/data.json".into(), "{\"a\": 1}".into()));
+                files.push(("/broken.ts".into(), "export const = ;\n".into()));
+                let mut manifest = serde_json::Map::new();
+                for (p, src) in &files {
+                  manifest.insert(p.clone(), json!({"size": src.len(), "checksum": format!("sha256-{}", crate::world::sha256_hex(src.as_bytes()))}));
+                  w.add_text(&format!("https://jsr.io/@s/a/1.0.0{}", p), src);
+                }
+                w.add_text("https://jsr.io/@s/a/meta.json", "{\"versions\":{\"1.0.0\":{}}}");
+                w.add_text("https://jsr.io/@s/a/1.0.0_meta.json", &json!({"exports": {".": "./mod.ts"}, "manifest": manifest}).to_string());
+                // an unrelated, healthy package for dynamic imports
+                let okm = "export const ok = 1;\n";
+                w.add_text("https://jsr.io/@s/ok/meta.json", "{\"versions\":{\"1.0.0\":{}}}");
+                w.add_text(
+                  "https://jsr.io/@s/ok/1.0.0_meta.json",
+                  &json!({"exports": {".": "./mod.ts"}, "manifest": {"/mod.ts": {"size": okm.len(), "checksum": format!("sha256-{}", crate::world::sha256_hex(okm.as_bytes()))}}}).to_string(),
+                );
+                w.add_text("https://jsr.io/@s/ok/1.0.0/mod.ts", okm);
+                w.add_text(&format!("{}ok.ts", root_scheme), okm);
+                w.add_text(&format!("{}ok2.ts", root_scheme), okm);
+                let dyn_stmt = |n: usize| {
+                  if dyn_target == "jsr" && n == 0 {
+                    "await import(\"jsr:@s/ok@1\");\n".to_string()
+                  } else {
+                    format!("await import(\"./ok{}.ts\");\n", if n == 0 { "" } else { "2" })
+                  }
+                };
+                let jsr_stmt = if jsr_static { "import \"jsr:@s/a@1\";\n" } else { "await import(\"jsr:@s/a@1\");\n" };
+                let mut body = String::new();
+                match dyn_pos {
+                  "before" => {
+                    body.push_str(&dyn_stmt(0));
+                    body.push_str(jsr_stmt);
+                  }
+                  "after" => {
+                    body.push_str(jsr_stmt);
+                    body.push_str(&dyn_stmt(0));
+                  }
+                  "two" => {
+                    body.push_str(&dyn_stmt(0));
+                    body.push_str(jsr_stmt);
+                    body.push_str(&dyn_stmt(1));
+                  }
+                  _ => body.push_str(jsr_stmt),
+                }
+                let root = format!("{}main.ts", root_scheme);
+                if via_local {
+                  w.add_text(&root, "import \"./uses.ts\";\n");
+                  w.add_text(&format!("{}uses.ts", root_scheme), &body);
+                } else {
+                  w.add_text(&root, &body);
+                }
+                let ctx = json!({"known_answer": {"root": root, "dynamic_imports": dyn_pos, "dynamic_target": dyn_target, "depth": depth,
+                  "via_local_module": via_local, "package_imported_statically": jsr_static, "failure": fail}, "main": body});
+                acc.eval();
+                let built = catch(|| crate::world::build_simple(&w, &[root.as_str()], &BuildCfg::default()));
+                let (graph, _) = match built {
+                  Ok(x) => x,
+                  Err(p) => {
+                    acc.violation(format!("panic/{}", p.signature()), p.message, ctx);
+                    continue;
+                  }
+                };
+                acc.count("registry_known_answer_graphs");
+                for follow_dynamic in [false, true] {
+                  // everything behind a dynamic import is loaded in a dynamic
+                  // branch, where JSON is accepted without the attribute
+                  let expected_err = jsr_static || (follow_dynamic && fail != "json-without-attribute");
+                  let verdict = graph
+                    .walk(
+                      [url(&root)].iter(),
+                      deno_graph::WalkOptions {
+                        check_js: deno_graph::CheckJsOption::True,
+                        follow_dynamic,
+                        kind: GraphKind::All,
+                        prefer_fast_check_graph: false,
+                      },
+                    )
+                    .validate();
+                  acc.count(if expected_err { "registry_known_answer:expected-err" } else { "registry_known_answer:expected-ok" });
+                  acc.nontrivial(hash64(&(ctx.to_string(), follow_dynamic)));
+                  match (&verdict, expected_err) {
+                    (Ok(()), true) => acc.violation(
+                      format!("registry-known-answer/validate-ok-but-failure-reachable/{}/dyn={}", fail, follow_dynamic),
+                      format!("the package entry statically reaches a {} but validation succeeded", fail),
+                      json!({"ctx": ctx, "graph": crate::world::graph_json(&graph)}),
+                    ),
+                    (Err(e), false) => acc.violation(
+                      format!("registry-known-answer/validate-fails-on-unfollowed-dynamic-edge/{}", fail),
+                      format!("the package is only imported dynamically and follow_dynamic is off, yet: {}", e.to_string().lines().next().unwrap_or("")),
+                      json!({"ctx": ctx}),
+                    ),
+                    (Err(e), true) => {
+                      // the error names the failing specifier
+                      let text = e.to_string_with_range();
+                      let names = match fail {
+                        "json-without-attribute" => "data.json",
+                        "missing" => "gone.ts",
+                        _ => "broken.ts",
+                      };
+                      if !text.contains(names) {
+                        acc.violation(
+                          format!("registry-known-answer/error-names-another-specifier/{}", fail),
+                          format!("expected an error about {}, got: {}", names, text.lines().next().unwrap_or("")),
+                          json!({"ctx": ctx}),
+                        );
+                      }
+                    }
+                    _ => {}
+                  }
+                }
+              }
+            }
+          }
+        }
+      }
+    }
+  }
+}
+
 pub fn run_c02(tier: Tier, seed: u64) -> i32 {
   let mut rep = Report::new("C02", tier, seed);
   rep.rule = "two workloads. (1) failure placement, exhaustive: root --edge1--> mid --edge2--> redirect chain (0-3 hops) --> failure, \
@@ -438,7 +617,8 @@ pub fn run_c02(tier: Tier, seed: u64) -> i32 {
     {missing, load error, parse error, unsupported media type, bare specifier, resolver error, https->http, remote->file:, json type assertion} \
     x build kind {All, CodeOnly, TypesOnly} x all 36 walk option sets x roots {root, mid, graph roots}; \
     (2) generated random worlds x random options. validate()/errors()/valid() are compared with the evaluator's reachable-failure set \
-    (verdict both directions, reported error in the set, referrer among the followed edges). non-trivial = a failure exists somewhere in the graph; \
+    (verdict both directions, reported error in the set, referrer among the followed edges; an edge the generated sources import statically at least once is followed as static whatever the graph's flag says). \
+    (3) known-answer registry worlds: a JSR package whose entry statically reaches {json without attribute, missing file, parse error} at depth 0-1, imported statically or dynamically, directly or through a local module, next to 0-2 unrelated dynamic imports (local or jsr) placed before / after: validation must fail exactly when the package is reached by followed edges and name the failing file. non-trivial = a failure exists somewhere in the graph; \
     distinct by (world, roots, options)"
     .into();
   rep.assumptions = vec![
@@ -451,6 +631,8 @@ pub fn run_c02(tier: Tier, seed: u64) -> i32 {
   let edges = [
     Edge::Static,
     Edge::Dynamic,
+    Edge::DynThenStatic,
+    Edge::StaticThenDyn,
     Edge::TypeOnly,
     Edge::DenoTypes,
     Edge::SelfTypes,
@@ -520,6 +702,7 @@ pub fn run_c02(tier: Tier, seed: u64) -> i32 {
         }
       };
       acc.count("placement_graphs");
+      crate::eval::set_static_edges(static_edges_of(gw, kind));
       acc.set_add("placements_seen", format!("{}", pj));
       if i % 97 == 0 && kind == GraphKind::All {
         acc.sample(json!({"placement": pj}));
@@ -538,6 +721,8 @@ pub fn run_c02(tier: Tier, seed: u64) -> i32 {
   let n = tier.pick(9600, 320000);
   let acc2 = par_run(n, |i, acc| one_world(i, seed, acc, "C02", 8));
   acc.merge(acc2);
+  registry_known_answers(&mut acc);
+  rep.floor("registry_known_answer_graphs", 300);
   rep.extra.insert("placements".into(), json!(n_place));
   rep.finish(acc)
 }
